@@ -852,6 +852,7 @@ def _cv_foreign_family(ctx, pio, tmp, crec):
             d, ints, _nl, ends = parse_cv(text2)
             lines.append(f'cvr {1 if prec32 else 0} {d["GRD"][0]} {d["GRD"][1]} {f2w(float(d["WVL"]))} {f2w(float(d["SSZ"]))} '
                          f'{int(d["NDA"])} {1 if ends else 0} ' + ' '.join(map(str, ints)))
+            lines.append('cvpre ' + text2.encode('utf-8').hex())
             recs.append(rec)
     # every cut point of a few re-declared files
     trunc = []
@@ -859,11 +860,31 @@ def _cv_foreign_family(ctx, pio, tmp, crec):
         f = os.path.join(tmp, 'cft.int')
         ks = _cuts(ctx, len(rec['text']))
         trunc.append({'rec': rec, 'ks': ks, 'res': [read_cv_cut(f, rec['text'], k) for k in ks]})
+    # preambles the reader must reject: a comment line / a title that runs into the end of the file
+    bad_pre = ['! only a comment', '  !x\n! y', 'title without a newline', '!\n!\n']
+    bad_res = []
+    for tx in bad_pre:
+        f = os.path.join(tmp, 'cfp.int')
+        with open(f, 'w') as fh:
+            fh.write(tx)
+        try:
+            with _quiet():
+                pio.read_codev_gridint(f)
+            bad_res.append('ok')
+        except Exception as ex:   # noqa
+            bad_res.append('raise')
+        lines.append('cvpre ' + tx.encode('utf-8').hex())
     rep = iter(C.lean_driver('C14', lines))
     for rec in recs:
         r, fo = rec['r'], rec['fo']
         c = r['c']
         m = next(rep)
+        mp = next(rep).split()
+        if 'meta' in rec:
+            got = rec['meta'].get('title', '').encode('utf-8').hex()
+            ctx.case('codev.preamble', {'text': rec['text'][:80], 'bang': fo['bang']}, nontrivial=True, tag=f'bang{fo["bang"]}')
+            if mp[0] != got:
+                ctx.disagree('codev.preamble', {'text': rec['text'][:80]}, rec['meta'].get('title'), mp[:2])
         case = descr(c, {'route': 'codev'})
         case['opt'] = dict(c['opt'], cvforeign=fo)
         item = 'codev.foreign'
@@ -894,6 +915,11 @@ def _cv_foreign_family(ctx, pio, tmp, crec):
                 ctx.disagree(item, case, f'warned={rec["warned"]}', f'warned={t[2] == "1"}')
         if bad:
             ctx.pred_fail(item, case, bad)
+    for tx, rr in zip(bad_pre, bad_res):
+        mp = next(rep)
+        ctx.case('codev.preamble', {'text': tx}, nontrivial=True, tag='malformed')
+        if (mp == 'none') != (rr == 'raise'):
+            ctx.disagree('codev.preamble', {'text': tx}, rr, mp)
     for t in trunc:
         rec = t['rec']
         c = rec['r']['c']
@@ -1693,7 +1719,7 @@ MANIFEST_ENTRY = {
              'S, O, code R reads S*O*32768/R times the plain value (zygo_declared_factors) and quantisation is within one step for every code and '
              'positive factors (zygo_quant_error_any_resolution); re-saving a loaded map reproduces the counts in exact arithmetic '
              '(zygo_requantise_exact); Code V WVL w with SSZ*w reads as WVL 1 (codev_unit_invariant).  TRANSLATED from the current source on every '
-             'run (17 items).  MODELLED AND COMPARED: instrument-style Zygo files (phase_res, scale, obliquity, header length, intensity block, frame '
+             'run (18 items).  MODELLED AND COMPARED: instrument-style Zygo files (phase_res, scale, obliquity, header length, intensity block, frame '
              'action; phase + header + intensity frame bit for bit, every cut point), re-declared Code V headers (order, case, units, sentinel, "!" '
              'comment lines, layout), save/load/save histories of Interferogram (bytes of each generation against the model); every byte of written .dat files, all 158 decoded header fields, every token of written grid INT '
              'files, every bit of the arrays read back (float64 and float32 results), reader behaviour at every truncation point of several '
